@@ -73,12 +73,12 @@ theorem built_element {n el : Nat} {nm : Nat} {ps : List (Nat × Nat)} {as : Lis
   · simp only [erase, treeOfContent, eraseList_append, hts.erase, eraseList_headKids,
       List.append_assoc]
   · intro h hh
-    simp only [handles, handlesList_append, List.mem_cons, List.mem_append] at hh
+    simp only [handles, handlesList_append_ff, List.mem_cons, List.mem_append] at hh
     rcases hh with rfl | hh | hh
     · omega
     · rw [mem_handlesList_headKids] at hh; omega
     · have := hts.bounds h hh; omega
-  · simp only [handles, handlesList_append, List.nodup_cons, List.mem_append, not_or]
+  · simp only [handles, handlesList_append_ff, List.nodup_cons, List.mem_append, not_or]
     refine ⟨⟨?_, ?_⟩, List.nodup_append.2 ⟨hKn, hts.nodup, ?_⟩⟩
     · rw [mem_handlesList_headKids]; omega
     · intro hh; have := hts.bounds _ hh; omega
